@@ -60,7 +60,12 @@ TEMPLATES = {
 CODE = {}
 
 
+MAXLEN = [3]
+
+
 def _prepare(tier=None, part=None):
+    if tier == "thorough":
+        MAXLEN[0] = 5
     if CODE:
         return
     for k, src in TEMPLATES.items():
@@ -99,7 +104,7 @@ def _exec(tpl, X=None, Y=None, XS=None):
 
 def ob_inject_single(X: str) -> Optional[str]:
     """cmd @(X): exactly one argument, verbatim"""
-    if len(X) > 3 or "\x00" in X:
+    if len(X) > MAXLEN[0] or "\x00" in X:
         raise Skip()
     argv = _exec("single", X=X)
     if argv is None or len(argv) != 2:
@@ -328,8 +333,8 @@ def _region_concat(args, v):
 
 
 OBLIGATIONS = [
-    Obligation("inject_single", ob_inject_single, bounds="cmd @(X), X any string of <= 3 characters without NUL (symbolic)",
-               pre=["len(X) <= 3"], timeout={"quick": 120, "thorough": 600}, prepare=_prepare, symbolic="X: str"),
+    Obligation("inject_single", ob_inject_single, bounds="cmd @(X), X any string of <= 3 (thorough: 5) characters without NUL (symbolic)",
+               pre=["len(X) <= 5"], timeout={"quick": 120, "thorough": 600}, prepare=_prepare, symbolic="X: str"),
     Obligation("inject_positions", ob_inject_positions, bounds="cmd @(X) @(Y), cmd a @(X) b; X, Y any strings of <= 2 characters",
                pre=["len(X) <= 2", "len(Y) <= 2"], timeout={"quick": 120, "thorough": 600}, prepare=_prepare, symbolic="X, Y: str"),
     Obligation("inject_list", ob_inject_list, bounds="cmd @(XS) z, XS a list or tuple of 0..2 symbolic strings of <= 2 characters",
